@@ -125,8 +125,8 @@ func (e *Env) GetEnvFromPath(path []string) (*Env, error) {
 		value, ok = e.values[path[0]]
 		e.rwMutex.RUnlock()
 		if ok {
-			e, ok = value.Interface().(*Env)
-			if ok {
+			if found, isEnv := value.Interface().(*Env); isEnv {
+				e = found
 				break
 			}
 		}
@@ -142,8 +142,8 @@ func (e *Env) GetEnvFromPath(path []string) (*Env, error) {
 		value, ok = e.values[path[i]]
 		e.rwMutex.RUnlock()
 		if ok {
-			e, ok = value.Interface().(*Env)
-			if ok {
+			if found, isEnv := value.Interface().(*Env); isEnv {
+				e = found
 				continue
 			}
 		}
